@@ -242,6 +242,7 @@ type rOpState struct {
 	doneAt    int
 	err       error
 	regAtDone int // streams of the collection registered when the call returned
+	regAtLoop int // 1 + streams of the collection registered when the call began to hand the partition to the handlers (0 = not yet)
 }
 
 type RigR struct {
@@ -382,14 +383,35 @@ func (r *RigR) run() {
 	for _, op := range sc.Ops {
 		r.ops = append(r.ops, &rOpState{op: op})
 	}
+	reader.VerifHandlerOrder = SeededHandlerOrder(s.Plan.Seed, 0)
 	if sc.Knobs.Yields || sc.Knobs.BarrierYield {
 		reader.VerifYield = func(point, ch string, coll int64) {
-			if strings.HasPrefix(point, "barrier") {
+			if strings.HasPrefix(point, "barrier") || strings.HasPrefix(point, "partition") {
 				if !sc.Knobs.BarrierYield {
 					return
 				}
 			} else if !sc.Knobs.Yields {
 				return
+			}
+			if point == "partition:handler" {
+				// the partition's barrier has just been sized by the handlers found: how many shard streams are registered now?
+				// (at this point the id handed to the hook is the partition's)
+				part := coll
+				r.opMu.Lock()
+				for _, o := range r.ops {
+					if o.op.Kind == "addpart" && o.op.Part == part && o.issued && !o.done && o.regAtLoop == 0 {
+						n := 0
+						if c := sc.coll(o.op.Coll); c != nil {
+							for _, v := range c.SrcV {
+								if st := r.mq.Stream(v); st != nil {
+									n++
+								}
+							}
+						}
+						o.regAtLoop = n + 1
+					}
+				}
+				r.opMu.Unlock()
 			}
 			s.Park(nil, "yield", fmt.Sprintf("%s:%s:%d", point, ch, coll), nil)
 		}
